@@ -187,6 +187,42 @@ use self::tfu::*;
             usage_exact(r->Ok_0.depot_usage@, &self.network, r->Ok_0.vehicles@, r->Ok_0.tours@), // @obl C09.remove_segment.depot_usage_exact
         self.removes(segment, vehicle_idx) && r is Ok ==>
             self.transitions_follow(vehicle_idx, r->Ok_0.next_period_transitions@, r->Ok_0.maintenance_violation, r->Ok_0.vehicles@, r->Ok_0.tours@), // @obl C10.remove_segment.transitions_follow_new_tours
+
+        // ---- CLOSURE (the induction step of C10 "after any sequence of schedule modifications", C09 / C11 "for every reachable
+        // schedule"): the result satisfies the schedule-invariant bundle rs_ok = sched_ok + ids_ok + formations_ok + transitions_ok +
+        // usage_exact AGAIN, conjunct by conjunct (sched_ok in its five groups so_network / so_vehicles / so_listing / so_costs_cover /
+        // so_costs_small: lemma_sched_ok_split).  Proved from the effect clauses above (rs_effect) in env/remove_segment_shim.vs,
+        // block CLOSURE; both cases.  (`r is Ok` implies `removes`: the first two clauses.)
+        // network (never modified), and every stored tour is the valid tour of a real vehicle held by a consistent cycle structure
+        r is Ok ==> r->Ok_0.network == self.network && r->Ok_0.so_network(), // @obl C10.remove_segment.result_satisfies_the_schedule_invariants_again
+        r is Ok ==> r->Ok_0.so_vehicles(), // @obl C10.remove_segment.result_satisfies_the_schedule_invariants_again
+        // ids
+        r is Ok ==> r->Ok_0.ids_ok(), // @obl C10.remove_segment.result_satisfies_the_schedule_invariants_again
+        // formations: every activity has one, it lists the vehicles whose tours contain the node
+        r is Ok ==> r->Ok_0.formations_ok(), // @obl C10.remove_segment.result_satisfies_the_schedule_invariants_again
+        // depot usage (C09)
+        r is Ok ==> usage_exact(r->Ok_0.depot_usage@, &r->Ok_0.network, r->Ok_0.vehicles@, r->Ok_0.tours@), // @obl C10.remove_segment.result_satisfies_the_schedule_invariants_again
+        // rotation cycles (C15 / C10 / C09), including the magnitude "fewer than 2^17 vehicles" (no vehicle is added)
+        r is Ok ==> r->Ok_0.transitions_ok(), // @obl C10.remove_segment.result_satisfies_the_schedule_invariants_again
+        // listings, vehicle by vehicle (NOT a conjunct of rs_ok: the whole-tour-case precondition listed_ok of the next
+        // modification): every vehicle that stays and was listed in the sorted id list of its type still is
+        r is Ok ==> self.listings_kept(&r->Ok_0), // @obl C10.remove_segment.result_satisfies_the_schedule_invariants_again
+        // listings (sched_ok: the listing is duplicate-free and matches the stored tours; at most 2^17 vehicles) and C09 (the costs
+        // cover the tours' costs) -- UNDER THE PREMISE A-listing = listing_exact(result), the first two of these conjuncts themselves:
+        // sched_vehicles is an UNINTERPRETED function of the schedule, so nothing about the listing of the result follows from the
+        // effect clauses; the number of vehicles and the cost sum ARE derived from it
+        r is Ok && listing_exact(&r->Ok_0) ==> r->Ok_0.so_listing() && r->Ok_0.so_costs_cover(), // @obl C10.remove_segment.result_satisfies_the_schedule_invariants_again
+        // (a sufficient condition for A-listing in terms of the old listing: the listing of the result follows the grouped id lists,
+        // whose change is proved: unchanged in the partial case, one occurrence of the id taken out in the whole-tour case)
+        r is Ok && self.listing_follows(segment, vehicle_idx, &r->Ok_0) ==> listing_exact(&r->Ok_0), // @obl C10.remove_segment.result_satisfies_the_schedule_invariants_again
+        // magnitude costs <= 2^61: an invariant of the whole-tour case only (the costs shrink by the tour's costs); in the partial
+        // case the shrunk tour may cost more than the old one (no triangle inequality is assumed): there the conjunct is the
+        // premise `r->Ok_0.costs <= sched_cost_bound()` of the clause below
+        // (a sufficient condition in the partial case: the shrunk tour does not cost more than the old one)
+        r is Ok && (self.whole_tour(segment, vehicle_idx) || r->Ok_0.tours@[vehicle_idx].costs <= self.tours@[vehicle_idx].costs)
+            ==> r->Ok_0.costs <= self.costs && r->Ok_0.so_costs_small(), // @obl C10.remove_segment.result_satisfies_the_schedule_invariants_again
+        // the bundle as the next modification requires it
+        r is Ok && listing_exact(&r->Ok_0) && r->Ok_0.costs <= sched_cost_bound() ==> r->Ok_0.rs_ok(), // @obl C10.remove_segment.result_satisfies_the_schedule_invariants_again
 //@end
 
 //@item solver/src/local_search/neighborhood/swaps/remove_single_node.rs traitfn RemoveSingleNode::apply
